@@ -145,4 +145,37 @@ def run(chk):
                     hf.append('pkt =' + (d[:pos] + bytes([v]) + d[pos + 1:]).hex())
     ihf = impl_run(chk.harness, hf, timeout=60.0)
     judge(hf, ihf, 'ParsePacket on model frames with one header byte replaced')
+    # hostile values in the length / count words of the datagram and set headers: in datagrams of every protocol taken
+    # from the structured histories, every aligned 16-bit word of the first 48 bytes takes every small value 0..40 (below,
+    # at and just above each fixed header size: 4, 8, 16, 20, 24, 28) and the usual large ones, every aligned 32-bit word the
+    # large ones; the history before the datagram stays (templates), pipes netflow / sflow / flow. Compared with the model.
+    small = list(range(0, 41)) + [47, 48, 49, 255, 256, 1000, 1001, 32767, 32768, 65535]
+    big = [0, 1, 2 ** 31 - 1, 2 ** 31, 2 ** 32 - 1]
+    byp = {}
+    for h in hists:
+        f = h.split(' ')
+        quads = [f[i:i + 4] for i in range(0, len(f) - 3, 4)]
+        for k, q in enumerate(quads):
+            byp.setdefault(q[3][1:9] if q[3][1:5] == '0000' else q[3][1:5], []).append((quads, k))
+    hw = []
+    per = dict(quick=3, thorough=25)[chk.tier]
+    for key, lst in sorted(byp.items()):
+        for quads, k in rng.sample(lst, min(per, len(lst))):
+            d = bytes.fromhex(quads[k][3][1:])
+            pre = [t for q in quads[:k] for t in q] + quads[k][:3]
+            for pos in range(0, min(48, len(d) - 1), 2):
+                for v in small:
+                    hw.append(' '.join(pre + ['=' + (d[:pos] + v.to_bytes(2, 'big') + d[pos + 2:]).hex()]))
+                if pos % 4 == 0 and pos + 4 <= len(d):
+                    for v in big:
+                        hw.append(' '.join(pre + ['=' + (d[:pos] + v.to_bytes(4, 'big') + d[pos + 4:]).hex()]))
+    hwl = ['pipe %s none %s' % (kind, h) for h in hw for kind in ('flow',)] + \
+          ['pipe %s none %s' % (kind, h) for h in rng.sample(hw, min(len(hw), 2000)) for kind in ('netflow', 'sflow')]
+    ihw = impl_run(chk.harness, hwl, timeout=60.0)
+    judge(hwl, ihw, 'header / set-header words replaced by hostile lengths and counts')
+    mhw = model_run('C06', hwl)
+    bad = [(a, o, m) for a, o, m in zip(hwl, ihw, mhw) if o != m and o not in ('hang', 'crash', 'skipped')]
+    me.GEN = 'C06'
+    resolve_scope_b(chk, me, bad, 'hostile-header-words', {}, None, None)
+    me.GEN = 'C14'
     return chk.finish(me)
